@@ -21,6 +21,7 @@ EXPLANATION = (
     "most once (R6 = C17.R1-R3). Not decided: that the chunk arithmetic partitions [0,n) exactly for all n and worker "
     "counts (pure arithmetic).")
 ASSUMPTIONS = ["register_work runs the task function exactly once (C01)", "n >= 0 (precondition of bulk)"]
+THOROUGH_CONFIGS = [["-UNDEBUG", "-DPIKA_DEBUG"]]
 FLOORS = {"C11.R1": 3, "C11.R2": 6, "C11.R3": 3, "C11.R4": 3, "C11.R5": 1}
 
 NSB = "pika::thread_pool_bulk_detail::operation_state::bulk_receiver"
